@@ -571,8 +571,10 @@ def run_obligation(pid, ob, hdir, kf_defs, slots):
                 o = run_sat(ob, gbn, wd, b, cancel, False)
             with lock:
                 outcomes.append(o)
-                if o.verdict in ("cex", "vacuous"):
+                if o.verdict == "cex":
                     cancel.set()
+                elif o.verdict == "vacuous":
+                    pass	# keep the property query running: a change that makes the end of the harness unreachable usually does so by failing a CHECK on the way, and that must be reported as a violation, not as "vacuous"
                 else:
                     have_w = (not want_witness) or any(x.backend == "witness" and x.verdict == "holds" for x in outcomes)
                     have_p = any(x.backend != "witness" and x.verdict == "holds" for x in outcomes)
